@@ -15,9 +15,11 @@ RULE = ('every function of 3 variables (both signs) and sampled root sets of 1-4
         'set == reachable, level attributes, exactly one then- and one else-edge per decision node, complement marks, '
         'evaluation of the graph == truth table; (4) DOT text from dump (parsed back): node set, level rows, solid=then / '
         'dashed=else, "-1" complement marks on else- and reference edges, evaluation from each reference node == truth '
-        'table of that root. non-trivial: non-constant roots; distinct = (root truth tables, order).')
+        'table of that root; (5) the same Function objects asked repeatedly (len, dag_size, var, level, low, high, support) while '
+        'the manager is reordered under them (2-3 groups of 4-6 variables moved between a separated and an interleaved order, sifting, '
+        'swaps). non-trivial: non-constant roots; distinct = (root truth tables, order).')
 EXHAUSTIVE = {'quick': False, 'thorough': False}
-REQUIRED_COUNTERS = ['expansion-checked', 'descendants-checked', 'nx-checked', 'dot-checked']
+REQUIRED_COUNTERS = ['same-handle-queries', 'expansion-checked', 'descendants-checked', 'nx-checked', 'dot-checked']
 NAMES = ['x', 'y', 'z']
 
 
@@ -38,6 +40,8 @@ def chunks(tier, seed):
     n = 150 if tier == 'quick' else 4000 * DEEP
     for k in range(0, n, 15):
         out.append(('case_rootsets', [dict(seed=seed * 3001 + k + i) for i in range(15)]))
+    for k in range(0, 12 if tier == 'quick' else 12 * DEEP, 6):
+        out.append(('case_same_handle', [dict(seed=seed * 3011 + k + i) for i in range(6)]))
     return out
 
 
@@ -300,3 +304,62 @@ def case_rootsets(c, res):
         shutil.rmtree(td, ignore_errors=True)
     release_all(b, roots)
     return (tuple(o), tuple(tts))
+
+
+def case_same_handle(c, res):
+    """the same Function objects are asked again and again (len, dag_size, var, level, low, high, support, count) while the manager is
+    reordered under them: functions over disjoint variable groups whose sizes depend on the order are moved between a good and a bad
+    order, in such a way that the total number of nodes may stay the same while the size of each function changes; every answer is
+    compared with a fresh traversal of the stored triples"""
+    import dd.autoref as A
+    rnd = random.Random(c['seed'])
+    k = rnd.randint(2, 3)
+    groups = rnd.randint(2, 3)
+    m = A.BDD()
+    b = m._bdd
+    sep, mix = [], []
+    for g in range(groups):
+        xs = [f'g{g}a{i}' for i in range(k)]
+        ys = [f'g{g}b{i}' for i in range(k)]
+        sep.append(xs + ys)
+        mix.append([v for pair in zip(xs, ys) for v in pair])
+    layout = [rnd.random() < .5 for _ in range(groups)]
+    m.declare(*[v for g in range(groups) for v in (mix[g] if layout[g] else sep[g])])
+    fs = []
+    for g in range(groups):
+        e = ' | '.join(f'(g{g}a{i} & g{g}b{i})' for i in range(k))
+        fs.append(m.add_expr(e))
+    if rnd.random() < .5:
+        fs.append(fs[0] & ~fs[1])
+    m.collect_garbage()
+
+    def ask(tag):
+        for f in fs:
+            wr = reachable(b, [f.node])
+            require(len(f) == len(wr) and f.dag_size == len(wr), 'dag_size#post',
+                    lambda: f'{tag}: len={len(f)} dag_size={f.dag_size}, but {len(wr)} nodes are reachable from {f.node} (order {dict(b.vars)})')
+            i, lo, hi = b._succ[abs(f.node)]
+            require(f.level == i and f.var == b._level_to_var[i], 'var#post:top-variable', lambda: f'{tag}: {f.var} at {f.level} vs level {i}')
+            require(abs(f.low.node) == abs(lo) and f.high.node == hi, 'low/high#post:stored-triple', lambda: f'{tag}: node {f.node}')
+            sup = {b._level_to_var[b._succ[x][0]] for x in wr if x != 1}
+            require(f.support == sup, 'support#post:variables-of-reachable-nodes', lambda: f'{tag}: {sorted(f.support)} vs {sorted(sup)}')
+        require(len(m) == len(b._succ), '__len__#post', tag)
+        res.count('same-handle-queries')
+    ask('after construction')
+    for step in range(rnd.randint(3, 6)):
+        x = rnd.random()
+        if x < .6:
+            layout = [not v if rnd.random() < .7 else v for v in layout]
+            order = [v for g in range(groups) for v in (mix[g] if layout[g] else sep[g])]
+            m.reorder({v: i for i, v in enumerate(order)})
+            tag = f'after reorder to {order}'
+        elif x < .8:
+            m.reorder()
+            tag = 'after sifting'
+        else:
+            i = rnd.randrange(len(b.vars) - 1)
+            b.swap(i, i + 1)
+            tag = f'after swap({i}, {i + 1})'
+        ask(tag)
+    wf(b)
+    return (k, groups, tuple(layout))
